@@ -63,10 +63,6 @@ def applyNew (ms : List Member) (u : Member) (j : Nat) : List Member × Summary 
    | none => ms ++ [u],
    ⟨u.active, true, u.active, .none⟩)
 
-/-- `permute ms p`: the element now at position `i` came from position `p[i]`. -/
-def permute (ms : List Member) (p : List Nat) : List Member :=
-  p.filterMap (fun i => ms[i]?)
-
 /-- index of the first active member at position `≥ start` -/
 def findActiveFrom : List Member → Nat → Nat → Option Nat
   | [], _, _ => none
@@ -87,14 +83,21 @@ def needsShuffle (cur : Cursor) (len : Nat) : Bool :=
   | .max => true
   | .at i => i ≥ len
 
+/-- `Vec::swap_remove(p)`: the last element takes the place of the removed one -/
+def swapRemoveAt (l : List α) (p : Nat) : List α :=
+  match l[p]? with
+  | none => l
+  | some _ =>
+    if p + 1 == l.length then l.dropLast
+    else match l.getLast? with
+      | none => l
+      | some last => l.take p ++ last :: (l.drop (p + 1)).dropLast
+
 /-- `Members::remove_if_down`: `swap_remove` of the first Down record with that identity. -/
 def removeIfDown (ms : List Member) (id : Id) : List Member :=
   match ms.findIdx? (fun m => m.id == id && m.st == .down) with
   | none => ms
-  | some p =>
-    match ms.getLast? with
-    | none => ms
-    | some last => if p + 1 == ms.length then ms.dropLast else (ms.set p last).dropLast
+  | some p => swapRemoveAt ms p
 
 def isActiveId (ms : List Member) (id : Id) : Bool :=
   ms.any (fun m => m.id == id && m.active)
